@@ -31,8 +31,7 @@ func (repo *TxRepository) MarkUnsafe(ctx context.Context, txid bitcoin.Hash32) (
 		return true, nil
 	}
 
-	repo.unconfirmed[txid] = newUnconfirmedTx(false, true, false)
-	return true, nil
+	return false, nil // Not a relevant tx
 }
 
 // Mark an unconfirmed tx as being verified by a trusted node.
